@@ -195,7 +195,8 @@ class MainTransformer(object):
         name = removed.argname
         if name is None:
             return
-        for value in list(parent.parameters) + [removed, parent.retval]:
+        for value in (list(parent.parameters) +
+                      [removed, parent.retval, getattr(parent, 'instance_parameter', None)]):
             if value is None:
                 continue
             if isinstance(value, ast.Parameter):
